@@ -12,8 +12,11 @@ import vlib
 
 PID = "C05"
 BODIES = [b"", b"hello\r\nworld\r\n", b"X-Injected: 1\r\nHost: evil\r\n\r\nmore", b"\n\nline", bytes(range(256)), b"\x1f\x8b\x08\x00" + b"\xff" * 32,
-          b"GET /second HTTP/1.1\r\nHost: second\r\n\r\n", "café 中文".encode()]
-BODY_NAMES = ["empty", "text with CRLF", "header-looking lines", "LF LF", "bytes 00..ff", "gzip magic + ff", "second request", "UTF-8 text"]
+          b"GET /second HTTP/1.1\r\nHost: second\r\n\r\n", "café 中文".encode(),
+          # binary bytes around every kind of blank line inside the body, and bodies that begin with a line end
+          b"\x89\xff\x00\n\n\xfe", b"\xff\xfe\r\n\r\n\xfd", b"\n\n\xff", b"\r\n\xff\xff", b"\n\xff", b"\xc3", b"\xff", b"\r\n", b"\xff\n\r\n\n\xfe: x\r\n\r\n"]
+BODY_NAMES = ["empty", "text with CRLF", "header-looking lines", "LF LF", "bytes 00..ff", "gzip magic + ff", "second request", "UTF-8 text", "binary, LF LF, binary", "binary, CRLF CRLF, binary", "LF LF binary", "CRLF binary", "LF binary",
+              "truncated UTF-8 lead byte", "ff", "CRLF", "binary with mixed line ends and a colon"]
 WHAT = {
     "D05_list_case": "the optional / value-elided header lists are matched case-sensitively, so `host:` or `cache-control:` are printed with their value and unmarked",
     "D05_lang_q_ows": "a q-value written `; q=0.5` (with optional whitespace) is read as q=1",
